@@ -83,6 +83,10 @@ ASSUMPTIONS = [
     "most all branches of the cells in view, each by exactly (x,y,z); update_nodes=True is not covered",
     "the data values of the selected rows are not part of the oracle (C12 covers table contents); any exception type "
     "is accepted as a refusal",
+    "families of equal length may overlap (a chain that belongs to two alphabets' products is executed twice); "
+    "distinct views are counted by digest",
+    "the test modules are themselves assembled through views (select + connect/add_to_group/insert/set/record/"
+    "stimulate/clamp); a module that differs from its description is reported as a build_mismatch violation",
 ]
 
 SYN_A, SYN_B = "IonotropicSynapse", "TestSynapse"
@@ -435,6 +439,13 @@ def check_view(v, rv):
     """None if the implementation view equals the reference view, else (rule, observed, expected)."""
     if v is None or not hasattr(v, "nodes"):
         return ("not_a_view", repr(v), list(rv.nodes))
+    try:
+        return _check_view(v, rv)
+    except Exception as e:  # a view whose tables cannot even be read
+        return ("malformed_view", f"{type(e).__name__}: {str(e)[:120]}", list(rv.nodes))
+
+
+def _check_view(v, rv):
     got = [int(i) for i in v.nodes.index.tolist()]
     if got != list(rv.nodes):
         if sorted(got) == sorted(rv.nodes):
@@ -562,7 +573,9 @@ def alphabet(rv, R):
                   {"op": "select", "edges": ALL}, {"op": "select", "edges": SL(1, None)}, {"op": "select", "edges": AR(2)},
                   {"op": "select", "nodes": LI(*C["sel"]), "edges": LI(1)},
                   {"op": "select", "nodes": LI(*C["sel_unsorted"]), "edges": LI(2, 0), "sorted": True},
-                  {"op": "select", "edges": LI(2, 0), "sorted": True}]
+                  {"op": "select", "edges": LI(2, 0), "sorted": True},
+                  # a view whose edges reach outside its nodes (select allows it)
+                  {"op": "select", "nodes": AR(*C["sel_small"]), "edges": LI(0, 2)}]
             S += [{"op": "select", "edges": x} for x in masks_for(rv, "edges", eff, 2)]
         else:
             S.append({"op": "select", "edges": LI(0)})  # no edges: refusal
@@ -657,10 +670,11 @@ def families(tier):
     return [
         ("comp", None, ["FULL"]), ("comp", None, ["FULL", "FULL"]),
         ("branch", None, ["FULL"]), ("branch", None, ["FULL", "FULL"]), ("branch", None, ["SMALL", "SMALL", "SMALL"]),
-        ("cell", None, ["FULL"]), ("cell", None, ["FULL", "FULL"]), ("cell", None, ["MID", "MID", "MID"]),
+        ("cell", None, ["FULL"]), ("cell", None, ["FULL", "FULL"]), ("cell", None, ["MID", "MID", "SMALL"]),
+        ("cell", None, ["SMALL", "SMALL", "MID"]),
         ("cell", None, ["TINY", "TINY", "TINY", "TINY"]),
         ("net", None, ["FULL"]), ("net", None, ["FULL", "MID"]), ("net", None, ["MID", "FULL"]),
-        ("net", None, ["MID", "MID", "MID"]),
+        ("net", None, ["MID", "MID", "SMALL"]), ("net", None, ["SMALL", "SMALL", "MID"]),
         ("net", None, ["TINY", "TINY", "TINY", "TINY"]),
         ("net", "global", ["MID"]), ("net", "global", ["MID", "MID"]), ("net", "global", ["SMALL", "SMALL", "SMALL"]),
         ("cell", "global", ["MID"]), ("cell", "global", ["MID", "MID"]),
@@ -705,18 +719,37 @@ CHUNK = 36
 def explore(ctx):
     items = []
     counts = {}
+    iter_seen = set()  # iteration is checked once per distinct reference state (first chain that reaches it)
+    n_iter = 0
     for model, root_scope, rich in families(ctx.tier):
         ref = ref_of(model)
         d = len(rich)
+        with_iter = d <= (2 if ctx.thorough else 1)
         fam = f"{model}:{root_scope or 'local'}:{'x'.join(rich)}"
         n = 0
         for chain, rv in prefixes(ref, root_scope, rich[:-1]):
             last = alphabet(rv, rich[-1])
             n += len(last)
             for k in range(0, len(last), CHUNK):
+                part = last[k:k + CHUNK]
+                iter_idx = []
+                if with_iter:
+                    for j, st in enumerate(part):
+                        ex = rv.step(st)
+                        if not ex.outcomes:
+                            continue
+                        if len(ex.outcomes) > 1:
+                            iter_idx.append(j)  # boundary loc: state not unique, always checked
+                            continue
+                        key = (model, root_scope, ex.outcomes[0].key())
+                        if key not in iter_seen:
+                            iter_seen.add(key)
+                            iter_idx.append(j)
+                n_iter += len(iter_idx)
                 items.append({"part": "A", "model": model, "root_scope": root_scope, "prefix": chain,
-                              "last": last[k:k + CHUNK], "fam": fam, "iter": d <= (2 if ctx.thorough else 1)})
+                              "last": part, "fam": fam, "iter_idx": iter_idx})
         counts[fam] = n
+    ctx.note("iteration_checked_views", n_iter + len(MODELS))
     for model in MODELS:
         items.append({"part": "A", "model": model, "root_scope": None, "prefix": [], "last": [], "fam": f"{model}:root",
                       "iter": True, "root_eval": True})
@@ -734,8 +767,8 @@ def explore(ctx):
     ctx.note("part_a_chains", sum(counts.values()))
     ctx.note("part_b_mutator_applications_planned", nb)
     ctx.note("bound", "quick: net depth<=3 (FULL | MIDxMID | SMALL^3), cell depth<=3, branch depth<=2, comp depth 1, "
-                      "set_scope('global') roots depth<=2; thorough: net FULLxMID + MIDxFULL + MID^3 + TINY^4, cell FULL^2 + "
-                      "MID^3 + TINY^4, branch FULL^2 + SMALL^3, comp FULL^2, set_scope('global') roots MID^2 / SMALL^3")
+                      "set_scope('global') roots depth<=2; thorough: net FULLxMID + MIDxFULL + MIDxMIDxSMALL + SMALLxSMALLxMID + TINY^4, "
+                      "cell FULL^2 + MIDxMIDxSMALL + SMALLxSMALLxMID + TINY^4, branch FULL^2 + SMALL^3, comp FULL^2, set_scope('global') roots MID^2 / SMALL^3")
     # heavier items first is not needed: the runner shuffles; keep items small instead
     res = ctx.map("work", items)
     a_chains = sum(r.get("chains", 0) for _, r in res if "error" not in r)
@@ -756,7 +789,11 @@ def _sig_a(rule, st, model):
     if st and st["op"] in LEVELS + ("edge",):
         sig["form"] = st["idx"]["f"]
     if st and st["op"] == "select":
-        sig["what"] = "+".join(k for k in ("nodes", "edges") if k in st) + ("+sorted" if st.get("sorted") else "")
+        both = "nodes" in st and "edges" in st
+        if st.get("sorted"):
+            sig["what"] = "nodes+edges+sorted" if both else "one_table+sorted"
+        else:
+            sig["what"] = "+".join(k for k in ("nodes", "edges") if k in st)
     return sig
 
 
@@ -920,7 +957,7 @@ def _lazy_checks(M, root_scope, path, out):
 _ITER_DONE = set()
 
 
-def _iter_checks(M, root_scope, chain, rv, v, out, memo=True):
+def _iter_checks(M, root_scope, chain, rv, v, out, memo=False):
     key = (M.name, root_scope, rv.key())
     if memo and key in _ITER_DONE:
         return
@@ -979,7 +1016,7 @@ def _kind_class(M, kind):
     return {"view": "scope", "filter": "select"}.get(kind, kind)
 
 
-def _run_a(M, mod, item, out, memo=True):
+def _run_a(M, mod, item, out, memo=False):
     root_scope = item.get("root_scope")
     if root_scope:
         mod.set_scope(root_scope)
@@ -1007,14 +1044,14 @@ def _run_a(M, mod, item, out, memo=True):
             rv, v = r
             chain = chain + [st]
             path.append((rv, v, st))
-        for st in item["last"]:
+        for k_last, st in enumerate(item["last"]):
             r = _step_on_impl(M, root_scope, chain, rv, v, st, out, True, path)
             if r is None:
                 continue
             rv2, v2 = r
             p2 = path + [(rv2, v2, st)]
             _lazy_checks(M, root_scope, p2, out)
-            if item.get("iter"):
+            if item.get("iter") or k_last in item.get("iter_idx", ()):
                 _iter_checks(M, root_scope, chain + [st], rv2, v2, out, memo)
     finally:
         if root_scope:
